@@ -8,7 +8,7 @@ import Refine.Model.ReconPar
 
       <op> np twod nn tag <3*nn xyz> <ns field> <nn part> | nl g.. nc (kind n..)* ne (a b)* | ...
 
-    ops: l2grad l2hess signed_hess kx_grad kx_hess cloud1 roundoff
+    ops: l2grad l2hess signed_hess kx_grad kx_hess cloud1 roundoff extrap
     output: `<status> | <values of rank 0, every stored vertex in local order> | <rank 1> | ...` -/
 namespace Drivers.ReconPar
 open Drivers.Proto Refine Refine.Model.Geom Refine.Model.Recon Refine.Model.ReconPar
@@ -86,6 +86,7 @@ def parseRank (twod : Bool) (nn : Nat) (part : List Nat) (ws : List String) : Op
                 | _, _ => none
 
 structure Op where
+  tag : String
   twod : Bool
   nn : Nat
   xyz : List (V3 F)
@@ -97,7 +98,7 @@ def parseOp (tensor : Bool) (ws : List String) : Option Op :=
   | [] => none
   | hd :: groups =>
     match hd with
-    | nps :: tws :: nns :: _tag :: rest =>
+    | nps :: tws :: nns :: tag :: rest =>
       match natTok? nps, natTok? tws, natTok? nns with
       | some np, some tw, some nn =>
         let ns := if tensor then 6 * nn else nn
@@ -108,7 +109,7 @@ def parseOp (tensor : Bool) (ws : List String) : Option Op :=
         | some xs, some fs, some part =>
           if !(part.all (· < np)) then none else
           match groups.mapM (parseRank (tw == 1) nn part) with
-          | some w => some ⟨tw == 1, nn, Drivers.Geom.v3s xs, fs, w⟩
+          | some w => some ⟨tag, tw == 1, nn, Drivers.Geom.v3s xs, fs, w⟩
           | none => none
         | _, _, _ => none
       | _, _, _ => none
@@ -134,8 +135,8 @@ def step (_ : Unit) (line : String) : Unit × String :=
     match ws with
     | [] => "bad-op"
     | op :: rest =>
-      if !(["l2grad", "l2hess", "signed_hess", "kx_grad", "kx_hess", "cloud1", "roundoff"].contains op) then "bad-op" else
-      match parseOp (op == "roundoff") rest with
+      if !(["l2grad", "l2hess", "signed_hess", "kx_grad", "kx_hess", "cloud1", "roundoff", "extrap"].contains op) then "bad-op" else
+      match parseOp (op == "roundoff" || op == "extrap") rest with
       | none => "bad-op"
       | some o =>
         let s : List (List F) := o.w.map fun r => r.restrict 0.0 o.fld
@@ -164,6 +165,16 @@ def step (_ : Unit) (line : String) : Unit × String :=
           let cl0 := (o.w.zip s).mapIdx fun me x => localClouds o.twod o.xyz me x.1 x.2
           (match ghostCloud o.w cl0 with
            | some cl => "ok" ++ String.join (cl.map fun rk => " |" ++ String.join (rk.map fmtCloud))
+           | none => "hang")
+        | "extrap" =>
+          let cs := o.tag.toList
+          if cs.head? != some 'm' || cs.length != o.nn + 1 || !(cs.tail.all fun c => c == '0' || c == '1') then "bad-op" else
+          let mask : List Bool := cs.tail.map (· == '1')
+          let rows : List (List (List F)) := o.w.map fun r =>
+            (r.restrict ⟨0.0, 0.0, 0.0, 0.0, 0.0, 0.0⟩ (m6s o.fld)).map m6row
+          let rep : List (List (List Bool)) := o.w.map fun r => (r.restrict false mask).map (List.replicate 6)
+          (match extrapolateZeroth o.w 6 rows rep with
+           | some x => "ok" ++ fmtRanks (x.1.map List.flatten)
            | none => "hang")
         | _ =>
           let ms : List (List (M6 F)) := o.w.map fun r => r.restrict ⟨0.0, 0.0, 0.0, 0.0, 0.0, 0.0⟩ (m6s o.fld)
